@@ -678,7 +678,7 @@ def registration_family(tier):
     out = [long, [(env, "%" + names[0] + "(before)")] + long[1:]]
     for k in range(1, 42):
         out.append([(env, probe(0))] + [reg(names[i], i % 3) for i in range(k)] + [(env, probe(k)), (env, probe(k))])
-        if k >= 2:      # the call planted before the table grows is itself an application built-in
+        if k in (2, 3, 4, 12, 13, 14, 32, 33, 34, 41) or (tier != "quick" and k >= 2):      # the call planted before the table grows is itself an application built-in
             out.append([reg(names[0], 0), (env, probe(1))] + [reg(names[i], i % 3) for i in range(1, k)] + [(env, probe(k))])
     return out
 
